@@ -274,7 +274,8 @@ fn multi_body(behs: [Beh; 3], timeout: Option<u64>, exit_one: Option<Exit>) -> v
                             CallResult::Timeout => ks.push("timeout".into()),
                             CallResult::SenderError => ks.push("sender-error".into()),
                         }
-                        let expect_success = matches!(behs[i], Beh::ReplyNow | Beh::ReplyFromTask) && !(i == 1 && exit_one.is_some());
+                        // (with a zero timeout the timer may win against an immediate reply)
+                        let expect_success = matches!(behs[i], Beh::ReplyNow | Beh::ReplyFromTask) && !(i == 1 && exit_one.is_some()) && timeout != Some(0);
                         if expect_success && !matches!(r, CallResult::Success(_)) {
                             bad.push(format!("callee {} replied immediately but result {i} is not Success", i + 1));
                         }
@@ -372,6 +373,9 @@ pub fn plan(tier: &str) -> Plan {
     for (d, t) in [(3u64, 5u64), (5, 5), (7, 5)] {
         scs.push((format!("timeout/d{d}-T{t}"), Sc { callers: vec![(Beh::ReplyAfterMs(d), Some(t)), (Beh::Hold, Some(t))], exit: Exit::None }));
     }
+    // the zero timeout: an answer (possibly Timeout) at once, whatever the callee does with the port
+    scs.push(("timeout/zero/hold+late+now".into(), Sc { callers: vec![(Beh::Hold, Some(0)), (Beh::ReplyAfterMs(5), Some(0)), (Beh::ReplyNow, Some(0))], exit: Exit::None }));
+    scs.push(("timeout/zero/hold-vs-kill".into(), Sc { callers: vec![(Beh::Hold, Some(0)), (Beh::ReplyFromTask, Some(0))], exit: Exit::Kill }));
     for (name, sc) in scs {
         units.push(Unit::explore(Job::new(format!("call/{name}").replace(['(', ')'], ""), cfg.clone(), Some(bound), call_body(sc))));
     }
@@ -379,6 +383,7 @@ pub fn plan(tier: &str) -> Plan {
         ([Beh::ReplyFromTask, Beh::ReplyNow, Beh::ReplyAfterMs(2)], None, None),
         ([Beh::ReplyAfterMs(4), Beh::ReplyNow, Beh::DropPort], Some(10), None),
         ([Beh::ReplyNow, Beh::Hold, Beh::ReplyFromTask], Some(5), Some(Exit::Kill)),
+        ([Beh::Hold, Beh::ReplyNow, Beh::ReplyAfterMs(2)], Some(0), None),
         ([Beh::ReplyAfterMs(3), Beh::ReplyAfterMs(1), Beh::ReplyAfterMs(2)], None, Some(Exit::Stop)),
     ] {
         units.push(Unit::explore(Job::new(format!("multi/{behs:?}/{timeout:?}/{exit:?}").replace(['(', ')', ' '], ""), cfg.clone(), Some(bound), multi_body(behs, timeout, exit))));
@@ -389,13 +394,14 @@ pub fn plan(tier: &str) -> Plan {
         (Beh::ReplyFromTask, None, Exit::Stop),
         (Beh::Hold, None, Exit::Kill),
         (Beh::DropPort, Some(5), Exit::Drain),
+        (Beh::Hold, Some(0), Exit::None),
     ] {
         units.push(Unit::explore(Job::new(format!("forward/{beh:?}/{timeout:?}/{exit:?}").replace(['(', ')'], ""), cfg.clone(), Some(bound + 1), forward_body(beh, timeout, exit))));
     }
     Plan {
         property: "C09",
         units,
-        rule: "1-3 concurrent callers x callee behaviour (reply now / after d / from a spawned task / hold the port / drop it / fail) x callee exit (stop/kill/drain landing anywhere by schedule) x timeout relation (d<T, d=T, d>T, none), multi_call over 3 callees, call_and_forward; deviation-bounded DFS over task-level schedules with the virtual clock (same-instant timer ties are explored); oracle: Success(v) only with the value the callee sent on that call's own port, every call returns (a stuck caller is a scheduler-proved hang), completion time <= T and = T for Timeout, multi_call results in request order, forward delivered exactly once iff the call succeeded; non-trivial = execution with >= 1 branching decision".into(),
+        rule: "1-3 concurrent callers x callee behaviour (reply now / after d / from a spawned task / hold the port / drop it / fail) x callee exit (stop/kill/drain landing anywhere by schedule) x timeout relation (d<T, d=T, d>T, T=0, none), multi_call over 3 callees, call_and_forward; deviation-bounded DFS over task-level schedules with the virtual clock (same-instant timer ties are explored); oracle: Success(v) only with the value the callee sent on that call's own port, every call returns (a stuck caller is a scheduler-proved hang), completion time <= T and = T for Timeout, multi_call results in request order, forward delivered exactly once iff the call succeeded; non-trivial = execution with >= 1 branching decision".into(),
         assumptions: vec![
             "task granularity; computation takes zero virtual time".into(),
         ],
